@@ -5,6 +5,7 @@ Expressions are generated from the allowed grammar only (literals, arithmetic, c
 conditional expressions, lists/tuples, calls of allow-listed functions with positional and keyword arguments), with
 small operands so evaluation is cheap.  Oracle: differential against Python's own eval over the same allow-listed names.
 """
+import builtins
 import math
 
 from hypothesis import strategies as st
@@ -15,7 +16,7 @@ TECHNIQUE = "grammar-based generation of allowed-subset expressions, differentia
 LEVEL_TEXT = ("Exploration: expressions generated from the allowed grammar (bounded depth and operand magnitude) are evaluated by the engine on the auto-detected and on every forced pathway and by "
               "Python's eval with the engine's own allow-listed names; engine success requires Python success with an equal value of equal type (bool-coerced on the logic pathway, NaN equals NaN), and "
               "Python raising requires an engine failure. A table of hand-picked corner expressions (keyword arguments, short-circuit values, keyword text in string literals, comparison chains) is enumerated.")
-LEVEL_NOTE = "One-directional as stated: an engine failure where Python succeeds is counted, not flagged; the reference binds each allow-listed name to the very object the live table holds (pow is math.pow there)."
+LEVEL_NOTE = "One-directional as stated: an engine failure where Python succeeds is counted, not flagged; the reference binds each allow-listed name to the very object the live table holds (pow is math.pow there), except that a _bounded_<f> stand-in is replaced by Python's <f>."
 PROPERTY = "C02"
 BUDGET = {"quick": 20000, "thorough": 500000}
 RULE = ("Generated: expressions of depth <= 4 over int/float/bool/str literals (strings deliberately containing True, false, ' and ', '<', quotes), + - * / // % ** with |int| <= 50 and exponents -3..4, "
@@ -31,6 +32,7 @@ RULE += " Round 7: the names true/false occur as atoms on every pathway (Python 
 RULE += " Added after the seeded rounds: " + 'Cases may carry `pre` (expressions evaluated first by fresh engines: module-level caches); string literals include runs of blanks, tabs, NBSP and other Unicode spaces.'
 RULE += ' String contents are also drawn from arbitrary Unicode (operator look-alikes, typographic quotes, full-width digits, zero-width characters); numeric literals include non-dyadic and extreme floats (0.1, 0.3, 1e16, 1e308, -0.0) so that grouping and intermediate overflow are observable.'
 RULE += " Wide, flat constructs: unparenthesised operator chains, comparison chains, argument lists and literals of 3..120 items (lengths straddle the engine's nesting limit of 50: beyond it a refusal is fine, a different value is not)."
+RULE += " Round 9: a _bounded_<f> stand-in in the live table is judged against Python's <f> itself (sum, round, factorial), and sum() over items of mixed kinds (lists, tuples, strings, numbers) with list / tuple / str / number starts is generated."
 
 _int = st.one_of(st.integers(-9, 12), st.integers(-50, 50)).map(lambda n: str(n) if n >= 0 else "(%d)" % n)
 # non-dyadic and extreme floats: grouping, evaluation order and intermediate overflow are observable (0.1 + (0.2 + 0.3) != (0.1 + 0.2) + 0.3)
@@ -118,7 +120,7 @@ def _any(draw, depth):
 @st.composite
 def _call(draw, depth):
     d = max(0, depth)
-    k = draw(st.integers(0, 23))
+    k = draw(st.integers(0, 24))
     x = lambda: draw(_num(d))     # noqa: E731
     if k == 0:
         return "abs(%s)" % x()
@@ -167,6 +169,12 @@ def _call(draw, depth):
         return "gcd(%s, %s)" % (draw(_int), draw(_int))
     if k == 22:
         return "(1 if %s else 0)" % draw(_strlit)
+    if k == 24:
+        # aggregates over items of mixed kinds with an explicit start: Python concatenates like with like only (and refuses str starts)
+        items = draw(st.lists(st.sampled_from(["[1, 2]", "(1, 2)", "'ab'", "[]", "()", "''", "3", "[[1]]", "True", "2.5", "[0]", "(0,)"]), min_size=0, max_size=4))
+        box = draw(st.sampled_from(["[%s]", "(%s,)"])) % ", ".join(items) if items else draw(st.sampled_from(["[]", "()"]))
+        start = draw(st.sampled_from(["[]", "()", "[0]", "(0,)", "0", "''", "start=[]", "start=()", "start=0.5", "True"]))
+        return "%s(%s, %s)" % ("sum", box, start)
     return "max(%s, %s, %s)" % (x(), x(), x())
 
 
@@ -219,6 +227,7 @@ _CORNERS = [
     "1e16 + 1.0 - 1e16", "1e16 - 1e16 + 1.0", "1 - (2 - 3)", "8 / (4 / 2)", "2 ** (3 ** 2)", "2 ** 3 ** 2", "7 - 2 - 1", "7 - (2 - 1)", "(-0.0) + 0.0", "0.0 + (-0.0)", "atan2((-0.0), (-1))",
     "pi()", "e(1, 2)", "1 + tau(0)", "inf() > 3", "pi(x=3)", "max(pi(), 1)", "int('11', base=2, base=10)", "round(2.567, ndigits=1, ndigits=2)", "max([1, 2], [0, 5], key=len, key=sum)",
     "factorial(n=5)", "factorial(x=5)", "round(number=2.567, ndigits=1)", "sum(iterable=[1, 2])", "sum([1, 2], start=1)", "sum([[1]], start=[])", "abs(x=-1)", "sqrt(x=4)", "max(1, 2, default=0)", "int(x='7')", "float(x=1)",
+    "sum([(1, 2)], [])", "sum(['ab'], [])", "sum([[1, 2]], (0,))", "sum([[1], (2,)], [])", "sum(['a'], '')", "sum([[1], [2]], [0])", "sum(((1,), (2,)), ())", "sum([[1], 2], [])", "sum([], [])", "sum([1.5, 2], 0.5)",
     "abs(-3) + abs(3.5)", "bool([])", "bool([0])", "int(2.9)", "float(3)", "pow(2, 3)", "factorial(5) / factorial(3)", "sqrt(16) + pi",
 ]
 
@@ -295,6 +304,13 @@ def judge(case):
     used = r.pathway
     out.label("pathway:%s" % (used.value if used else "none"), "engine:%s" % ("ok" if r.success else "fail"))
     env = dict(Mitochondria.SAFE_FUNCTIONS)
+    for k_, v_ in list(env.items()):
+        # a resource-bounded stand-in (_bounded_<f> of the engine's module) is judged against <f> itself: "agrees with Python" means Python's sum / round /
+        # factorial, not the stand-in compared with itself (its one liberty, a refusal, is an engine failure and those are never flagged here)
+        if getattr(v_, "__module__", None) == "operon_ai.organelles.mitochondria" and getattr(v_, "__name__", "").startswith("_bounded_"):
+            real = getattr(math, v_.__name__[9:], None) or getattr(builtins, v_.__name__[9:], None)
+            if real is not None:
+                env[k_] = real
     logic = used == MetabolicPathway.KREBS_CYCLE
     if logic:
         env.update({"true": True, "false": False})
